@@ -179,7 +179,7 @@ func c12Monitor(o *c12Obs) (fails []Failure, timing map[string]bool) {
 				how = "the server closed the connection"
 			}
 			if scn.Pool > 0 && !started {
-				add("shutdown/pool>0/queued-jobs-dropped", fmt.Sprintf("pool %d: request %d of connection %d had been read by the server (numInvoke) but its handler was never started and no response came; %s; shutdown took %d ms of a %d ms grace period",
+				add("shutdown/pool>0/queued-jobs-dropped", fmt.Sprintf("pool %d: request %d of connection %d had been read by the server (its bytes had left the socket) but its handler was never started and no response came; %s; shutdown took %d ms of a %d ms grace period",
 					scn.Pool, r, ci, how, dur, scn.GraceMs), false)
 			} else {
 				add("shutdown/read-request-unanswered", fmt.Sprintf("pool %d: request %d of connection %d was read by the server (handler started: %v, returned: %v) but no response arrived; %s; shutdown took %d ms (grace %d ms)",
@@ -388,6 +388,18 @@ func c12Gen(tier string, rng *rand.Rand) []c12Case {
 			add(c12Scn{Pool: pool, Signal: "DIRECT", Conns: []c12ConnScn{{Pre: []int{50, 300}, Post: []int{0}, PostDelayMs: 50}, {}}})
 		}
 		if pool > 0 {
+			// every worker busy with a long request, and requests of OTHER connections read but only queued (in the
+			// dispatcher's hand / in JobQueue) at the moment of shutdown: they are in flight (numInvoke), their
+			// connections must stay open until they are answered
+			busy := func(extra ...c12ConnScn) []c12ConnScn {
+				var cs []c12ConnScn
+				for w := 0; w < pool; w++ {
+					cs = append(cs, c12ConnScn{Pre: []int{2500 - 200*w}})
+				}
+				return append(cs, extra...)
+			}
+			add(c12Scn{Pool: pool, GraceMs: 9000, Conns: busy(c12ConnScn{Pre: []int{0}})})
+			add(c12Scn{Pool: pool, GraceMs: 9000, Signal: "DIRECT", Conns: busy(c12ConnScn{Pre: []int{50, 0, 300}, Pipelined: true}, c12ConnScn{Pre: []int{300}}, c12ConnScn{})})
 			// tiny job queue: the receive loop blocks in handleConn
 			add(c12Scn{Pool: pool, QueueCap: 1, Phase: "sent", Conns: []c12ConnScn{{Pre: []int{100, 100, 100, 100, 100, 100}, Pipelined: true}}})
 			// many queued jobs on several connections
@@ -414,6 +426,13 @@ func c12Gen(tier string, rng *rand.Rand) []c12Case {
 			s.Conns = []c12ConnScn{{Pre: []int{durs[rng.Intn(len(durs))]}, Bulk: 4 << 20, ReadDelayMs: []int{300, 1200}[rng.Intn(2)]}}
 			add(s)
 			continue
+		}
+		if s.Pool > 0 && rng.Intn(8) == 0 {
+			// all workers busy with long requests, queued requests on other connections
+			s.GraceMs = 9000
+			for w := 0; w < s.Pool; w++ {
+				s.Conns = append(s.Conns, c12ConnScn{Pre: []int{1200 + 300*rng.Intn(6)}})
+			}
 		}
 		n := 1 + rng.Intn(4)
 		for k := 0; k < n; k++ {
